@@ -10,8 +10,9 @@
    subject of C01-C03; here a plan is a list of steps, each carrying its migration body and the bookkeeping
    statements update_to_step issued for it.
 
-   Universe: SQLite; tables with nullable, constraint-free columns (no PK / UNIQUE / NOT NULL / defaults),
-   non-unique indexes; a statement that is not applicable (table exists / missing, wrong arity ...) aborts
+   Universe: SQLite; tables with nullable columns that may carry a server default (no PK / UNIQUE / NOT NULL),
+   non-unique indexes; an INSERT names its columns: an omitted column takes the column default (NULL if none), an
+   explicit None is NULL; a statement that is not applicable (table exists / missing, wrong arity ...) aborts
    the run (None).  Table, column and index names are interned by the harness (N); table names and index
    names are different name spaces by construction and never name the version table. *)
 From AV Require Export Base.ListSet.
@@ -46,7 +47,8 @@ Definition post (l:text) : text := replace_tab l.
 Definition no_tab (s:text) : bool := negb (memN 9 s).
 
 (* ---------------------------------------------------------------- abstract database *)
-Record col := mkCol { c_name : N; c_type : N }.
+(* c_dflt: the value SQLite stores for a column the INSERT omits (server_default), None = no default *)
+Record col := mkCol { c_name : N; c_type : N; c_dflt : option value }.
 Record table := mkTable { t_name : N; t_cols : list col; t_rows : list (list value) }.
 Record index := mkIndex { x_name : N; x_tab : N; x_cols : list N }.
 Record udb := mkU { u_tabs : list table; u_idx : list index }.
@@ -54,14 +56,17 @@ Record udb := mkU { u_tabs : list table; u_idx : list index }.
 Definition db : Type := udb * option (list N).
 
 (* ---------------------------------------------------------------- operations of a migration body (none reads the database) *)
-Inductive rawstmt := RInsert (t:N) (vals : list value) | RDeleteAll (t:N) | RUpdateAll (t c : N) (v:value).
+(* op.execute("...") with a plain string: the literals are text the user wrote (w), not python values.
+   A cell of an INSERT is None when the statement does not name the column. *)
+Inductive rawstmt := RInsert (t:N) (cells : list (option text)) | RDeleteAll (t:N) | RUpdateAll (t c : N) (w:text).
+(* the default of a column of CreateTable / AddColumn is the python-side value d; the DDL carries its literal *)
 Inductive op :=
 | CreateTable (t:N) (cols : list col)
 | DropTable (t:N)
 | AddColumn (t:N) (c:col)
 | CreateIndex (i t : N) (cols : list N)
 | DropIndex (i:N)
-| BulkInsert (t:N) (rows : list (list value))
+| BulkInsert (t:N) (rows : list (list (option value)))   (* per column: None = key absent from the row dict *)
 | Execute (r:rawstmt).
 
 (* HeadMaintainer._insert_version / _delete_version / _update_version *)
@@ -69,13 +74,15 @@ Inductive vstmt := VIns (r:N) | VDel (r:N) | VUpd (a b : N).
 Record step := mkStep { s_body : list op; s_bk : list vstmt }.
 
 (* ---------------------------------------------------------------- SQL statements; A = what stands in a literal position *)
+Record scol (A:Type) := mkSCol { sc_name : N; sc_type : N; sc_dflt : option A }.   (* DEFAULT <literal> *)
+Arguments mkSCol {A}. Arguments sc_name {A}. Arguments sc_type {A}. Arguments sc_dflt {A}.
 Inductive stmt (A:Type) :=
-| SCreateTable (t:N) (cols : list col)
+| SCreateTable (t:N) (cols : list (scol A))
 | SDropTable (t:N)
-| SAddColumn (t:N) (c:col)
+| SAddColumn (t:N) (c:scol A)
 | SCreateIndex (i t : N) (cols : list N)
 | SDropIndex (i:N)
-| SInsert (t:N) (cells : list A)
+| SInsert (t:N) (cells : list (option A))
 | SDeleteAll (t:N)
 | SUpdateAll (t c : N) (cell : A)
 | SVCreate | SVDrop | SVInsert (r:N) | SVDelete (r:N) | SVUpdate (a b : N).
@@ -106,11 +113,19 @@ Section Exec.
   Context {A:Type}.
   Variable rd : A -> value.                      (* how the database reads what stands in a literal position *)
 
+  Definition read_col (c:scol A) : col := mkCol (sc_name c) (sc_type c) (option_map rd (sc_dflt c)).
+  Definition dflt_or_null (c:col) : value := match c_dflt c with Some v => v | None => VNull end.
+  Fixpoint fill_row (cols : list col) (cells : list (option A)) : list value :=
+    match cols, cells with
+    | c :: cs, x :: xs => match x with Some a => rd a | None => dflt_or_null c end :: fill_row cs xs
+    | _, _ => []
+    end.
+
   Definition exec_u (u:udb) (s:stmt A) : option udb :=
     match s with
     | SCreateTable t cols =>
         match find_tab (u_tabs u) t, cols with
-        | None, _ :: _ => if nodupb (map c_name cols) then Some (mkU (u_tabs u ++ [mkTable t cols []]) (u_idx u)) else None
+        | None, _ :: _ => if nodupb (map sc_name cols) then Some (mkU (u_tabs u ++ [mkTable t (map read_col cols) []]) (u_idx u)) else None
         | _, _ => None
         end
     | SDropTable t =>
@@ -121,8 +136,9 @@ Section Exec.
         end
     | SAddColumn t c =>
         match find_tab (u_tabs u) t with
-        | Some T => if memN (c_name c) (col_names T) then None
-                    else Some (mkU (set_tab (u_tabs u) (mkTable t (t_cols T ++ [c]) (map (fun r => r ++ [VNull]) (t_rows T)))) (u_idx u))
+        | Some T => if memN (sc_name c) (col_names T) then None
+                    else let c' := read_col c in
+                         Some (mkU (set_tab (u_tabs u) (mkTable t (t_cols T ++ [c']) (map (fun r => r ++ [dflt_or_null c']) (t_rows T)))) (u_idx u))
         | None => None
         end
     | SCreateIndex i t cols =>
@@ -136,7 +152,7 @@ Section Exec.
     | SInsert t cells =>
         match find_tab (u_tabs u) t with
         | Some T => if Nat.eqb (length cells) (length (t_cols T))
-                    then Some (mkU (set_tab (u_tabs u) (mkTable t (t_cols T) (t_rows T ++ [map rd cells]))) (u_idx u)) else None
+                    then Some (mkU (set_tab (u_tabs u) (mkTable t (t_cols T) (t_rows T ++ [fill_row (t_cols T) cells]))) (u_idx u)) else None
         | None => None
         end
     | SDeleteAll t =>
@@ -186,6 +202,9 @@ Section Lit.
   (* SQLAlchemy's literal renderer for the column type and SQLite's reading of a literal: not alembic's code *)
   Variable lit : value -> text.
   Variable parse_lit : text -> value.
+  (* SQLAlchemy's text(): DefaultImpl._exec wraps a plain string in text() in BOTH modes, and compiling a
+     TextClause rewrites the statement text ("\:" becomes ":"); its action on the text of a literal *)
+  Variable untext : text -> text.
 
   (* executing the offline script with the sqlite3 module *)
   Definition replay (d:db) (script : list sqlstmt) : option db := exec_list parse_lit d script.
@@ -196,25 +215,29 @@ Section Lit.
      online : bulk_insert binds the python values (executemany); op.execute(text) sends the user's text as is.
      offline: bulk_insert renders one INSERT per row with literal binds; every statement passes through _exec,
               whose replace("\t", "    ") also rewrites the text of the literals. *)
-  Definition compile_raw {A} (f : value -> A) (r:rawstmt) : stmt A :=
+  Definition compile_raw {A} (f : text -> A) (r:rawstmt) : stmt A :=
     match r with
-    | RInsert t vals => SInsert t (map f vals)
+    | RInsert t cells => SInsert t (map (option_map f) cells)
     | RDeleteAll t => SDeleteAll t
-    | RUpdateAll t c v => SUpdateAll t c (f v)
+    | RUpdateAll t c w => SUpdateAll t c (f w)
     end.
-  Definition compile_op {A} (fbind fexec : value -> A) (o:op) : list (stmt A) :=
+  Definition compile_col {A} (f : value -> A) (c:col) : scol A := mkSCol (c_name c) (c_type c) (option_map f (c_dflt c)).
+  (* fbind: a bulk_insert value; fddl: the default literal of a column; fexec: a literal of an op.execute string *)
+  Definition compile_op {A} (fbind fddl : value -> A) (fexec : text -> A) (o:op) : list (stmt A) :=
     match o with
-    | CreateTable t cols => [SCreateTable t cols]
+    | CreateTable t cols => [SCreateTable t (map (compile_col fddl) cols)]
     | DropTable t => [SDropTable t]
-    | AddColumn t c => [SAddColumn t c]
+    | AddColumn t c => [SAddColumn t (compile_col fddl c)]
     | CreateIndex i t cols => [SCreateIndex i t cols]
     | DropIndex i => [SDropIndex i]
-    | BulkInsert t rows => map (fun row => SInsert t (map fbind row)) rows
+    | BulkInsert t rows => map (fun row => SInsert t (map (option_map fbind) row)) rows
     | Execute r => [compile_raw fexec r]
     end.
-  Definition compile_on (o:op) : list (stmt ocell) := compile_op Bound (fun v => Lit (lit v)) o.
+  Definition compile_on (o:op) : list (stmt ocell) :=
+    compile_op Bound (fun v => Lit (lit v)) (fun w => Lit (untext w)) o.
   Definition off_lit (v:value) : text := post (lit v).
-  Definition compile_off (o:op) : list sqlstmt := compile_op off_lit off_lit o.
+  Definition off_text (w:text) : text := post (untext w).
+  Definition compile_off (o:op) : list sqlstmt := compile_op off_lit off_lit off_text o.
 
   (* ---- HeadMaintainer: self.heads (a python set; kept here as a list) *)
   Definition hm_apply (h : list N) (s:vstmt) : option (list N) :=
@@ -294,11 +317,24 @@ Definition observable (d:db) : obs :=
   mkObs (u_tabs (fst d)) (u_idx (fst d)) (match snd d with Some l => l | None => [] end) [].
 
 (* ---------------------------------------------------------------- literal values occurring in a plan *)
-Definition raw_values (r:rawstmt) : list value :=
-  match r with RInsert _ vals => vals | RDeleteAll _ => [] | RUpdateAll _ _ v => [v] end.
-Definition op_values (o:op) : list value :=
-  match o with BulkInsert _ rows => concat rows | Execute r => raw_values r | _ => [] end.
+Fixpoint somes {A} (l : list (option A)) : list A :=
+  match l with [] => [] | Some a :: r => a :: somes r | None :: r => somes r end.
+Definition col_values (c:col) : list value := match c_dflt c with Some v => [v] | None => [] end.
+Definition op_values (o:op) : list value :=            (* rendered by SQLAlchemy's literal renderer *)
+  match o with
+  | BulkInsert _ rows => flat_map somes rows
+  | CreateTable _ cols => flat_map col_values cols
+  | AddColumn _ c => col_values c
+  | _ => []
+  end.
+Definition op_texts (o:op) : list text :=              (* literal text inside op.execute strings *)
+  match o with
+  | Execute (RInsert _ cells) => somes cells
+  | Execute (RUpdateAll _ _ w) => [w]
+  | _ => []
+  end.
 Definition steps_values (steps : list step) : list value := flat_map (fun st => flat_map op_values (s_body st)) steps.
+Definition steps_texts (steps : list step) : list text := flat_map (fun st => flat_map op_texts (s_body st)) steps.
 
 (* the version heads are never empty between two steps (true of every upgrade and downgrade plan) *)
 Fixpoint mid_nonempty (h:list N) (steps : list step) : bool :=
@@ -359,3 +395,31 @@ Definition parse_c (t:text) : value :=
   | 45 :: r => match r, text_uint r with _ :: _, Some u => VInt (Z.of_int (Decimal.Neg u)) | _, _ => VNum t end
   | _ => match t, text_uint t with _ :: _, Some u => VInt (Z.of_int (Decimal.Pos u)) | _, _ => VNum t end
   end.
+
+(* text() + compile on the statement text, as far as a literal is concerned: sqlalchemy BIND_PARAMS_ESC, i.e.
+   a backslash followed by a colon and a maximal run of word characters that is not itself followed by a colon
+   loses the backslash.  Word characters are taken to be ASCII letters, digits, "_" and "$"
+   (the generator only puts such characters next to a colon).  ":name" bind parameters are outside the universe. *)
+Definition is_word (c:N) : bool :=
+  (N.leb 48 c && N.leb c 57) || (N.leb 65 c && N.leb c 90) || (N.leb 97 c && N.leb c 122) || N.eqb c 95 || N.eqb c 36.
+Fixpoint span_word (s:text) : text * text :=
+  match s with
+  | c :: r => if is_word c then let (w, r') := span_word r in (c :: w, r') else ([], s)
+  | [] => ([], [])
+  end.
+Fixpoint untext_fuel (n:nat) (s:text) : text :=
+  match n with
+  | O => s
+  | S n' =>
+      match s with
+      | 92 :: 58 :: r =>
+          let (w, r') := span_word r in
+          match r' with
+          | 58 :: _ => 92 :: untext_fuel n' (58 :: r)            (* no match at this backslash *)
+          | _ => 58 :: w ++ untext_fuel n' r'
+          end
+      | c :: r => c :: untext_fuel n' r
+      | [] => []
+      end
+  end.
+Definition untext_c (s:text) : text := untext_fuel (length s) s.
